@@ -1520,7 +1520,7 @@ fn read_subframes<R: BitRead>(
                     read_subframe(&mut reader, side_bps, side)?;
 
                     left.iter().zip(side.iter_mut()).for_each(|(left, side)| {
-                        *side = *left - *side;
+                        *side = left.wrapping_sub(*side);
                     });
                 }
                 None => {
@@ -1556,7 +1556,7 @@ fn read_subframes<R: BitRead>(
                     read_subframe(&mut reader, header.bits_per_sample.into(), right)?;
 
                     side.iter_mut().zip(right.iter()).for_each(|(side, right)| {
-                        *side += *right;
+                        *side = side.wrapping_add(*right);
                     });
                 }
                 None => {
@@ -1594,9 +1594,10 @@ fn read_subframes<R: BitRead>(
                     read_subframe(&mut reader, side_bps, side)?;
 
                     mid.iter_mut().zip(side.iter_mut()).for_each(|(mid, side)| {
-                        let sum = *mid * 2 + side.abs() % 2;
-                        *mid = (sum + *side) >> 1;
-                        *side = (sum - *side) >> 1;
+                        // wrapping: malformed subframes must not overflow-panic
+                        let sum = mid.wrapping_mul(2) | (*side & 1);
+                        *mid = sum.wrapping_add(*side) >> 1;
+                        *side = sum.wrapping_sub(*side) >> 1;
                     });
                 }
                 None => {
